@@ -32,20 +32,22 @@ def unframe(stream: bytes):
 class Check(PropertyCheck):
     prop = "C26"
     design_ref = "§5 C26"
-    level_text = ("Lean theorems about the model of DNSLayer forwarding (unpack_message -> hook -> pack_message, UDP and TCP "
-                  "framing) over the C25 codec model and the independent specification decoder DnsRef (backward-only "
-                  "compression pointers, RDATA canonicalised by its own RFC layout table): `forward_preserves` (every message "
-                  "DnsRef reads is, if forwarded, read identically by DnsRef after forwarding: same header, questions, records, "
-                  "names label for label and case for case, record data equal after expanding compressed names), "
-                  "`forward_preserves_tcp`, `forward_never_crashes` (a decoded message always re-encodes), "
-                  "`opaque_types_bytewise`. Model tied to the real DNSLayer driven through harness/common/world.py in both "
-                  "directions over UDP and TCP; the Lean DnsRef is tied to its Python twin on every input and output.")
-    level_note = ("trusted: Lean kernel; hand-written models tied differentially (forwarded bytes; DnsRef rendering vs its "
-                  "Python twin). The idna codec is a parameter of the model, instantiated per case from the real codec. "
-                  "Hooks are answered without modification by the world; only one segment per connection and direction is "
-                  "modelled (segmentation and id matching are C27: for server->client cases the world first lets the client ask "
-                  "the query each server message answers, so that the reply is solicited). The oracle additionally demands that a message made of "
-                  "plain host-name labels is actually delivered; that liveness part is checked on the code, not proved.")
+    level_text = ("Lean theorems over the C25 codec model, the independent specification decoder DnsRef (backward-only "
+                  "compression pointers, RDATA canonicalised by its own RFC layout table) and the C27 model of DNSLayer. "
+                  "`repack_preserves` / `forward_preserves` / `forward_preserves_tcp`: every message DnsRef reads is, if "
+                  "forwarded, read identically by DnsRef afterwards (same header, questions, records; names label for label "
+                  "and case for case; record data equal after expanding compressed names). `history_preserves`: for EVERY "
+                  "schedule of client segments, server segments and closes on a connection (any interleaving of queries and "
+                  "replies, ids, pending-query check, TCP length-prefix buffering, any connect outcome) with no addon "
+                  "touching a flow, every SendData is the re-encoding of a frame the other side delivered, read identically "
+                  "by DnsRef, or the SERVFAIL of a client frame; `history_preserves_any_segmentation` (with C27's "
+                  "interleaved_seg_independent) makes that independent of how the streams are cut; `delivered_frames`. "
+                  "`compressed_name_read` + `scanRaw_wire_ptr`: labels followed by a pointer to an earlier offset < 16384 are "
+                  "read by DnsRef and by the cache-based decoder as labels ++ target name (the contract with any compressing "
+                  "encoder). `forward_never_crashes(_tcp)`, `decoded_message_encodes`, `opaque_types_bytewise`, "
+                  "`code_layout_is_rfc_layout`. Tie: real DNSLayer driven through harness/common/world.py in both "
+                  "directions over UDP and TCP (incl. > 16 KiB messages whose names first appear beyond offset 16383); "
+                  "Lean DnsRef against its Python twin on every input and output.")
     technique = "Lean 4 proof (parse agreement between the cache-based decoder and the specification decoder) + differential correspondence through the real DNSLayer"
     rule = ("server-style messages from an independent compressing encoder: compressed names inside CNAME/NS/PTR/MX/SOA/SRV/"
             "NAPTR/RP/... data, ACE/IDN labels, TXT/unknown/A/AAAA/OPT records with pointer-like bytes, SOA serials and MX "
@@ -130,11 +132,53 @@ class Check(PropertyCheck):
             return bytes(b)
         return bytes(rng.getrandbits(8) for _ in range(rng.randint(0, 40)))
 
+    def _large(self, first_at, late, reuse, pad_type=16):
+        """a big answer (zone-transfer / large TXT style): padding records push the first appearance of the owner
+        name `late` to message offset `first_at` (in the re-packed, uncompressed layout as well as on the wire,
+        the padding holds no compressible name); then `reuse` more records use that name or a suffix of it"""
+        q = [b"big", b"example"]
+        hdr_q = 12 + len(D.wire_name(q)) + 4
+        recs, pos = [], hdr_q
+        while pos < first_at:
+            room = first_at - pos
+            # a record with root owner costs 1 + 10 + len(data)
+            n = min(60000, room - 11)
+            if n < 0:                                   # cannot hit exactly: shift by one small record
+                break
+            if room - 11 - n != 0 and room - 11 - n < 11: n -= 11
+            data = bytes([min(255, n - 1)]) + bytes(max(0, n - 1)) if n > 0 else b""
+            data = data[:n]
+            recs.append(([], pad_type, 1, 0, [("b", data)])); pos += 11 + len(data)
+        glue = [(late, 1, 1, 300, [("b", b"\xc0\x00\x02\x01")]), (late, 28, 1, 300, [("b", bytes(16))])]
+        for i in range(reuse):
+            glue.append(([b"x%d" % i] + late[1:], 1, 1, 60, [("b", b"\x01\x02\x03\x04")]))
+        return D.build_wire({"id": 0x4242, "flags": 0x8400, "q": [(q, 252, 1)], "an": recs, "ns": [], "ar": glue}, compress=True)
+
+    def _large_cases(self):
+        late = [b"ns1", b"dns-host", b"net"]
+        for first_at in (16383, 16384, 16385, 16500, 20000, 33000):
+            for reuse in (0, 2):
+                m = self._large(first_at, late, reuse)
+                yield {"transport": "tcp", "dir": "s2c", "msgs_hex": [hx(m)]}
+                yield {"transport": "tcp", "dir": "c2s", "msgs_hex": [hx(m)]}
+        yield {"transport": "udp", "dir": "s2c", "msgs_hex": [hx(self._large(16384, late, 1))]}
+        yield {"transport": "tcp", "dir": "s2c", "msgs_hex": [hx(self._large(16384, [b"a", b"b", b"c", b"d"], 2, pad_type=10))]}
+
     def generate(self, rng, tier):
+        # messages whose names first appear beyond the reach of a 14-bit compression pointer (offset >= 16384)
+        for c in self._large_cases(): yield c
         while True:
             tr = rng.pick(["udp", "tcp"])
+            if rng.chance(0.004 if tier == "quick" else 0.002):
+                late = [rng.pick(HOST) for _ in range(rng.randint(1, 4))]
+                yield {"transport": tr, "dir": rng.pick(["c2s", "s2c"]),
+                       "msgs_hex": [hx(self._large(rng.pick([16000, 16383, 16384, rng.randint(16384, 40000)]), late, rng.randint(0, 3), rng.pick([16, 10, 99])))]}
+                continue
             k = 1 if tr == "udp" or rng.chance(0.7) else rng.randint(2, 3)
             yield {"transport": tr, "dir": rng.pick(["c2s", "s2c"]), "msgs_hex": [hx(self._one(rng)) for _ in range(k)]}
+
+    def exhaustive(self, tier):
+        yield from self._large_cases()
 
     # ------------------------------------------------------------------ implementation: the real DNSLayer in the world
     @staticmethod
